@@ -88,6 +88,10 @@ def run_check(pid: str, tier: str, seed: int, only_defs=None, replay_mode=False)
     crates = []
     probe_cfgs = [c for c in configs if c.get("kind") == "genprobe"]
     configs = [c for c in configs if c.get("kind") != "genprobe"]
+    if not any(c.get("release") for c in configs) and not getattr(mod, "NO_RELEASE_TWIN", False):
+        # every corpus is built and run in BOTH profiles: a release build compiles strum_macros itself (a proc macro) without debug
+        # assertions and the generated code without overflow checks — what the derives do must not depend on the profile
+        configs = configs + [dict(c, name=c["name"] + "rel", release=True) for c in configs]
     for cfg in configs:
         cc = R.CorpusCrate(cfg["name"], features=cfg.get("features", ("derive",)), nshards=cfg.get("nshards", 8),
                            extra_deps=cfg.get("extra_deps", ""), crate_attrs=cfg.get("crate_attrs", ""),
